@@ -28,7 +28,7 @@ ID = 'C03'
 MODULE = 'PyTough.Props.C03'
 TARGETS = ['PyTough.Props.C03', 'drv_c03']
 THEOREMS = ['Props.C03.' + t for t in [
-    'table_is_current', 'geo_roundtrip', 'reread_unique', 'header_preserved', 'nodes_preserved', 'columns_preserved',
+    'tables_are_current', 'geo_roundtrip', 'reread_unique', 'header_preserved', 'nodes_preserved', 'columns_preserved',
     'connections_preserved', 'layers_preserved', 'surfaces_preserved', 'wells_preserved', 'names_lists_preserved',
     'geo_write_fixpoint_partial', 'later_generations',
     'rounding_idempotent', 'feet_roundtrip', 'rjust_names_safe', 'left_justified_name_changes',
@@ -41,10 +41,10 @@ LEVEL_TEXT = ('Proof: Lean theorems about an executable model of mulgrid.write /
               'PARTIAL: the layer-centre clause and the byte-for-byte second write carry the decidable hypothesis LayerCentresKept (KNOWN FINDING '
               'layer-centre-zero-recomputed: proved necessary by the model witnesses layer_centre_zero_lost / second_file_differs, replayed on the real code); '
               'geo_write_fixpoint_partial assumes nothing else (rounding of every %f / %e field is proved idempotent). '
-              'Tied to /repo on every run by the regenerated format table (table_is_current is re-evaluated) and by byte-for-byte write / canonical-dump read '
+              'Tied to /repo on every run by the regenerated format table (tables_are_current is re-evaluated) and by byte-for-byte write / canonical-dump read '
               'correspondence on generated and shipped geometries.')
 LEVEL_NOTE = ('Trusted: Lean kernel (+propext, Classical.choice, Quot.sound); hand-written Model/GeoFile.lean and Model/Fixed.lean (tied by correspondence); '
-              'A-float (exact decimals/rationals in the model; double rounding of float(), x*0.3048, x/0.3048 outside); name-length/unit-scale tables hand-copied. '
+              'A-float (exact decimals/rationals in the model; double rounding of float(), x*0.3048, x/0.3048 outside). '
               'Not proved: closeness of roundE to its argument (C02 proves it for the record layer).')
 TECHNIQUE = ('Lean 4 proof over an executable model of the geometry file reader/writer (exact decimals and rationals) + '
              'byte-for-byte / canonical-dump correspondence with the real mulgrid.write / mulgrid(file) + direct round-trip oracle')
@@ -56,9 +56,9 @@ ASSUMPTIONS = [
     'file text is ASCII, seen after Python universal-newline translation',
     'derived doubles (centroid of an unspecified centre, default layer centre, FEET products) are compared with relative tolerance 1e-9 / 1e-12',
 ]
-TRUSTED_EXTRA = ['harness/translate/specs.py dumps mulgrid_format_specification from the imported module of the current tree',
-                 'the name-length / atmosphere-column tables of set_secondary_variables and the unit_scale dictionary are hand-copied in '
-                 'Model/GeoFile.lean (tied by the correspondence facets)']
+TRUSTED_EXTRA = ['harness/translate/specs.py (format table from the imported module), conventions.py and geotables.py (AST of mulgrids.py: name lengths, '
+                 'atmosphere column names, block_name parts, unit scales, block orders, keyword dispatch, section order) regenerate Gen/*.lean on every '
+                 'run; the model computes through these tables and tables_are_current pins them to the values the proofs use']
 
 KNOWN_CENTRE = 'layer-centre-zero-recomputed'
 SHIPPED = ['g1', 'g2', 'g3', 'g4', 'g5', 'g6', 'g7']
@@ -66,8 +66,10 @@ getcontext().prec = 60
 
 
 def translate(ctx):
-    from translate import specs
-    specs.translate(ctx)
+    from translate import specs, conventions, geotables
+    specs.translate(ctx)                        # Gen/Specs.lean      : mulgrid_format_specification (names + specs)
+    conventions.translate(core.REPO)            # Gen/Conventions.lean: name lengths, atmosphere column names, block_name parts
+    geotables.translate(core.REPO)              # Gen/GeoTables.lean  : unit scales, block orders, read keywords, section order
 
 
 @contextlib.contextmanager
